@@ -1270,10 +1270,15 @@ func (s *Entry) printFirstLineOfMsg(pc *PrintCtx) {
 	firstLine, pc.restLines, pc.eol = ct.splitFirstAndRestLines(pc.msg)
 	if minimalMessageWidth > 0 {
 		str := ct.rightPad(firstLine, " ", minimalMessageWidth)
-		str = ct.translate(str)
+		if strings.ContainsAny(str, "<&") { // only markup needs the translator, which also eats leading blanks
+			str = ct.translate(str)
+		}
 		_, _ = pc.WriteString(ct.wrapColorAndBg(str, pc.clr, pc.bg))
 	} else {
-		str := ct.translate(firstLine)
+		str := firstLine
+		if strings.ContainsAny(str, "<&") {
+			str = ct.translate(str)
+		}
 		_, _ = pc.WriteString(ct.wrapColorAndBg(str, pc.clr, pc.bg))
 	}
 	// pc.pcAppendByte(' ')
